@@ -287,3 +287,8 @@ func fromVal(v *val.Val, declared *types.Type, path string, depth int) *ref.V {
 	ill(path, "unexpected kind %d", int(v.Type.Kind))
 	return nil
 }
+
+// ToTypeShared converts with a caller-supplied variable table, so that the
+// same variable name maps to the same real type variable across calls; all
+// composite nodes are fresh.
+func ToTypeShared(t *ref.Ty, vars map[string]*types.Type) *types.Type { return toType(t, vars) }
